@@ -36,7 +36,7 @@ fn camel(s: &str) -> String {
 }
 
 /// register a record of Model/Flex.lean; `lean_names` overrides the camel-cased field name
-fn register(w: &mut World, rust: &str, lean: &str, fields: Vec<(&str, Ty)>, lean_names: &[(&str, &str)]) {
+pub(crate) fn register(w: &mut World, rust: &str, lean: &str, fields: Vec<(&str, Ty)>, lean_names: &[(&str, &str)]) {
     let fs = fields
         .into_iter()
         .map(|(n, t)| Field { rust: n.into(), lean: lean_names.iter().find(|x| x.0 == n).map(|x| x.1.to_string()).unwrap_or_else(|| camel(n)), ty: t })
@@ -47,7 +47,7 @@ fn register(w: &mut World, rust: &str, lean: &str, fields: Vec<(&str, Ty)>, lean
 
 /// compare `struct <name>` of the source with the registered record: field names in order, field types (a field listed in `as_text` is
 /// compared by the text of its type instead: its Rust type has no counterpart in the fragment and the registered type is a convention)
-fn check_struct(w: &World, items: &[Item], env: &CfgEnv, name: &str, as_text: &[(&str, &str)]) -> Result<(), String> {
+pub(crate) fn check_struct(w: &World, items: &[Item], env: &CfgEnv, name: &str, as_text: &[(&str, &str)]) -> Result<(), String> {
     let adt = w.adt(name).ok_or(format!("no registry entry for {name}"))?;
     let fields = match &adt.kind {
         AdtKind::Struct(f) => f,
